@@ -1,2 +1,18 @@
 import PsutilModel.Props.C04
 #print axioms Psutil.C04.cfg_good
+#print axioms Psutil.C04.C04_listing_exact
+#print axioms Psutil.C04.C04_pids_sorted_exact
+#print axioms Psutil.C04.C04_pids_unique
+#print axioms Psutil.C04.C04_pids_sets_lowest
+#print axioms Psutil.C04.C04_pidExists_iff
+#print axioms Psutil.C04.C04_pidExists_overflow_counterexample
+#print axioms Psutil.C04.yieldsOf_cons
+#print axioms Psutil.C04.C04_iter_ascending
+#print axioms Psutil.C04.C04_overlap_safety
+#print axioms Psutil.C04.C04_yield_was_listed
+#print axioms Psutil.C04.C04_iter_each_listed_once
+#print axioms Psutil.C04.C04_L19_counterexample
+#print axioms Psutil.C04.C04_identity_overlap_counterexample
+#print axioms Psutil.C04.C04_overlap_later_yields_second
+#print axioms Psutil.C04.C04_clear_while_suspended_counterexample
+#print axioms Psutil.C04.C04_reuse_check_skips_pid_counterexample
